@@ -69,6 +69,9 @@ func c12Model(c *RCase) (c12Expect, *Built) {
 	m := &c.Stream
 	var parts [][]byte
 	b := m.Build()
+	if b.Err == errWriterFailed {
+		return c12Expect{}, b // a part the library writer got wrong: left to the writer checks
+	}
 	if b.Err != nil {
 		sim.Infra("cannot build multi stream: %v", b.Err)
 	}
@@ -106,6 +109,10 @@ func c12Model(c *RCase) (c12Expect, *Built) {
 
 func runC12(c *RCase, x *sim.Ctx) *sim.Violation {
 	exp, b := c12Model(c)
+	if b.Err == errWriterFailed {
+		x.Count("writer-contract-failures(left to C01/C02)", 1)
+		return nil
+	}
 	m := &c.Stream
 	x.Shape("n" + itoa(len(m.Parts)))
 	if c.Single {
